@@ -78,7 +78,7 @@ Definition p_unified_string_literal (fuel: nat) : M node :=
 Definition py_space (c: N) : bool :=
   (N.leb 9 c && N.leb c 13) || (N.leb 28 c && N.leb c 32) || N.eqb c 133 || N.eqb c 160.
 Definition rstrip_ws (s: str) : str :=
-  rev ((fix go (l: str) : str := match l with c :: r => if py_space c then go r else l | [] => [] end) (rev s)).
+  rev ((fix go (l: str) : str := match l with c :: r => if py_space c then go r else c :: r | [] => [] end) (rev s)).
 
 Fixpoint concat_wstrings (fuel: nat) (v: str) : M str :=    (* node.value.rstrip()[:-1] + tok2.value[2:] *)
   match fuel with
@@ -1378,7 +1378,7 @@ Definition parse_tokens (fuel: nat) : M node :=
   | None => ret (mkN C_FileAST [VList ext] None)
   end.
 
-Definition init_pstate (items: list (pitem P)) (eof_f: str) (filename: str) : pstate P :=
+Definition init_pstate (items: list (pitem P)) (eof_f: P) (filename: P) : pstate P :=
   mkPS P items eof_f [] [] 0 [[]] filename 0.
 
 End PM.
